@@ -6,6 +6,7 @@ package main
 
 import (
 	"fmt"
+	"sort"
 	"strconv"
 	"strings"
 	"time"
@@ -25,6 +26,12 @@ const (
 	c16Bool
 	c16Map
 	c16Nested
+	c16Date   // []*DateNode, nil entries possible
+	c16Role   // []*HusbandNode / []*WifeNode, nil entries possible
+	c16PlaceI // gedcom.Nodes holding PLAC nodes
+	c16DateI  // gedcom.Nodes holding DATE nodes
+	c16EventI // gedcom.Nodes holding event nodes
+	c16Num    // []float64
 )
 
 type c16Gen struct{ r *Rand }
@@ -51,9 +58,20 @@ func (g *c16Gen) source() (string, int) {
 func (g *c16Gen) scalar(t int) string {
 	switch t {
 	case c16Indi:
-		return g.r.Pick([]string{".Name | .String", ".Name | .GivenName", ".Name | .Surname", ".Sex | .String", ".Pointer", ".Value", ".Tag | .Tag", ".Names | Length", ".Nodes | Length"})
+		return g.r.Pick([]string{".Name | .String", ".Name | .GivenName", ".Name | .Surname", ".Sex | .String", ".Pointer", ".Value", ".Tag | .Tag", ".Names | Length", ".Nodes | Length",
+			".IsLiving", ".String", ".Birth | .String", ".Birth | .Years", ".Death | .IsValid", ".Death | .String", ".Baptism | .String", ".Burial | .Years", ".Spouses | Length",
+			".Families | Length", ".Parents | Length", ".Births | Length", ".Deaths | Length", ".Baptisms | Length", ".Burials | Length", ".Spouses | .Pointer", ".Families | .Pointer", ".Parents | .Pointer"})
 	case c16Fam:
-		return g.r.Pick([]string{".Pointer", ".Value", ".Tag | .Tag", ".Nodes | Length"})
+		return g.r.Pick([]string{".Pointer", ".Value", ".Tag | .Tag", ".Nodes | Length", ".Husband | .Individual | .Name | .String", ".Wife | .Individual | .IsLiving",
+			".Children | Length", ".Husband | .Individual | .String", ".Wife | .Individual | .Pointer", ".Husband | .Value", ".Children | .Individual | .String", ".Wife | .Individual | .Birth | .Years"})
+	case c16Date, c16DateI:
+		return g.r.Pick([]string{".Years", ".String", ".IsValid", ".Value", ".String"})
+	case c16Role:
+		return g.r.Pick([]string{".Individual | .String", ".Individual | .IsLiving", ".Individual | .Pointer", ".Value", ".Individual | .Name | .Surname"})
+	case c16PlaceI:
+		return g.r.Pick([]string{".Name", ".Country", ".County", ".State", ".String", ".JurisdictionalName", ".Value", ".Country"})
+	case c16EventI:
+		return g.r.Pick([]string{".Dates | Length", ".String", ".Value", ".Tag | .Tag", ".Dates | .String", ".Dates | .Years"})
 	case c16NodeI:
 		return g.r.Pick([]string{".Pointer", ".Value", ".Tag | .Tag", ".Nodes | Length"})
 	case c16Name:
@@ -67,7 +85,7 @@ func (g *c16Gen) scalar(t int) string {
 }
 
 func (g *c16Gen) pred(t int) string {
-	if t == c16Str || t == c16Bool {
+	if t == c16Str || t == c16Bool || t == c16Num {
 		return g.r.Pick([]string{"Length", `"x"`, "1"}) + " " + g.r.Pick(c16ops) + " " + g.r.Pick(c16consts)
 	}
 	s := g.scalar(t)
@@ -87,7 +105,7 @@ func (g *c16Gen) step(q string, t int) (string, int) {
 	case k < 3:
 		return q + " | " + g.r.Pick([]string{"First", "Last"}) + "(" + strconv.Itoa(g.r.Intn(9)) + ")", t
 	case k < 5:
-		if t == c16Nested || t == c16Map {
+		if t == c16Nested || t == c16Map || t == c16Num {
 			return q + " | Only(1 = 1)", t
 		}
 		return q + " | Only(" + g.pred(t) + ")", t
@@ -96,19 +114,46 @@ func (g *c16Gen) step(q string, t int) (string, int) {
 	case k < 9:
 		switch t {
 		case c16Indi:
-			switch g.r.Intn(6) {
+			switch g.r.Intn(12) {
 			case 0, 1:
 				return q + " | .Name", c16Name
 			case 2:
 				return q + " | .Sex", c16Sex
 			case 3:
-				return q + " | .Names", c16Nested
+				return q + " | " + g.r.Pick([]string{".Names", ".Spouses", ".Families", ".Parents", ".Births", ".Deaths", ".Baptisms", ".Burials"}), c16Nested
 			case 4:
 				return q + " | .Tag", c16Tag
+			case 5, 6, 7:
+				return q + " | " + g.r.Pick([]string{".Birth", ".Death", ".Baptism", ".Burial", ".Birth"}), c16Date
+			case 8:
+				return q + " | .IsLiving", c16Bool
+			case 9:
+				return q + " | .String", c16Str
 			}
 			return q + " | .Pointer", c16Str
 		case c16Fam:
+			switch g.r.Intn(5) {
+			case 0, 1:
+				return q + " | " + g.r.Pick([]string{".Husband", ".Wife"}), c16Role
+			case 2:
+				return q + " | .Children", c16Nested
+			}
 			return q + " | " + g.r.Pick([]string{".Pointer", ".Value"}), c16Str
+		case c16Role:
+			if g.r.Chance(2, 3) {
+				return q + " | .Individual", c16Indi
+			}
+			return q + " | .String", c16Str
+		case c16Nested:
+			return q + " | Length", -1
+		case c16Date:
+			switch g.r.Intn(3) {
+			case 0:
+				return q + " | .Years", c16Num
+			case 1:
+				return q + " | .IsValid", c16Bool
+			}
+			return q + " | .String", c16Str
 		case c16Name:
 			return q + " | " + g.r.Pick([]string{".GivenName", ".Surname", ".String"}), c16Str
 		case c16Sex:
@@ -118,13 +163,23 @@ func (g *c16Gen) step(q string, t int) (string, int) {
 		}
 		return q + " | Only(1 = 1)", t
 	case k < 10:
+		if t == c16Indi && g.r.Chance(2, 3) {
+			ev := g.r.Pick([]string{"BIRT", "DEAT", "BAPM", "BURI", "RESI", "EVEN"})
+			switch g.r.Intn(3) {
+			case 0:
+				return q + ` | NodesWithTagPath("` + ev + `", "PLAC")`, c16PlaceI
+			case 1:
+				return q + ` | NodesWithTagPath("` + ev + `", "DATE")`, c16DateI
+			}
+			return q + ` | NodesWithTagPath("` + ev + `")`, c16EventI
+		}
 		if t == c16Indi || t == c16NodeI || t == c16Name || t == c16Fam {
 			args := g.r.Pick([]string{`"NAME"`, `"BIRT", "DATE"`, `"BIRT"`, `"SEX"`, `"GIVN"`, `"HUSB"`, `"NAME", "GIVN"`, `"NOPE"`, `"BIRT", "PLAC"`})
 			return q + " | NodesWithTagPath(" + args + ")", c16NodeI
 		}
 		return q + " | First(2)", t
 	case k < 12:
-		if t == c16Nested || t == c16Map || t == c16Str || t == c16Bool {
+		if t == c16Nested || t == c16Map || t == c16Str || t == c16Bool || t == c16Num {
 			return q + " | Last(3)", t
 		}
 		n := 1 + g.r.Intn(3)
@@ -134,7 +189,7 @@ func (g *c16Gen) step(q string, t int) (string, int) {
 		}
 		return q + " | {" + strings.Join(fs, ", ") + "}", c16Map
 	case k < 13:
-		if t == c16Nested || t == c16Map {
+		if t == c16Nested || t == c16Map || t == c16Num {
 			return q + " | Length", -1
 		}
 		return q + " | " + g.pred(t), c16Bool
@@ -165,13 +220,13 @@ func (g *c16Gen) program(depth int) string {
 	case 2:
 		return "X is " + q + "; X is .Families; Y is X | Length; X"
 	case 3:
-		if t >= 0 && t != c16Nested && t != c16Map {
+		if t >= 0 && t != c16Nested && t != c16Map && t != c16Num {
 			return "P is " + g.pred(t) + "; " + q + " | Only(P)"
 		}
 	case 4:
 		return g.r.Pick(c16consts) + " " + g.r.Pick(c16ops) + " " + g.r.Pick(c16consts)
 	case 5:
-		if t >= 0 && t != c16Nested && t != c16Map {
+		if t >= 0 && t != c16Nested && t != c16Map && t != c16Num {
 			return "S is " + g.scalar(t) + "; " + q + " | {v: S, n: S | Length}"
 		}
 	}
@@ -321,6 +376,35 @@ var c16apiRefs = map[string]func(doc *gedcom.Document) string{
 		return "i" + strconv.Itoa(n)
 	},
 	".Individuals | .Names | Length": func(d *gedcom.Document) string { return "i" + strconv.Itoa(len(d.Individuals())) },
+	".Individuals | .String": func(d *gedcom.Document) string {
+		return c16strs(d, func(i *gedcom.IndividualNode) string { return i.String() })
+	},
+	".Individuals | .Birth | .String": func(d *gedcom.Document) string {
+		return c16strs(d, func(i *gedcom.IndividualNode) string { b, _ := i.Birth(); return b.String() })
+	},
+	".Individuals | .IsLiving": func(d *gedcom.Document) string {
+		var sb strings.Builder
+		sb.WriteString("[ ")
+		for _, i := range d.Individuals() {
+			if i.IsLiving() {
+				sb.WriteString("t ")
+			} else {
+				sb.WriteString("f ")
+			}
+		}
+		sb.WriteString("]")
+		return strings.ReplaceAll(sb.String(), "[ ]", "[  ]")
+	},
+	".Individuals | {s: .Spouses | Length, f: .Families | Length, p: .Parents | Length}": func(d *gedcom.Document) string {
+		var sb strings.Builder
+		sb.WriteString("[ ")
+		for _, i := range d.Individuals() {
+			fmt.Fprintf(&sb, "{ k%s i%d k%s i%d k%s i%d } ", hexs("f"), len(i.Families()), hexs("p"), len(i.Parents()), hexs("s"), len(i.Spouses()))
+		}
+		sb.WriteString("]")
+		return strings.ReplaceAll(sb.String(), "[ ]", "[  ]")
+	},
+	".Families | .Children | Length": func(d *gedcom.Document) string { return "i" + strconv.Itoa(len(d.Families())) },
 	".Individuals | {p: .Pointer, n: .Names | Length}": func(d *gedcom.Document) string {
 		var sb strings.Builder
 		sb.WriteString("[ ")
@@ -346,38 +430,426 @@ func c16strs(d *gedcom.Document, f func(*gedcom.IndividualNode) string) string {
 	return c16strList(d.Individuals(), f)
 }
 
+// ------------------------------------------------------------ laws checked on the implementation (S)
+
+// c16Law is one algebraic law instance: the queries it needs are a function of a (shrinkable)
+// base expression and a parameter, the verdict is a function of their observations.
+type c16Law struct {
+	Kind  string
+	Expr  string // base expression E
+	Param string
+	Doc   int
+}
+
+const c16sep = "\x00"
+
+func (l c16Law) queries() []string {
+	e := l.Expr
+	ps := strings.Split(l.Param, c16sep)
+	switch l.Kind {
+	case "first", "last":
+		fn := "First"
+		if l.Kind == "last" {
+			fn = "Last"
+		}
+		qs := []string{e}
+		for k := 0; k <= 8; k++ {
+			qs = append(qs, fmt.Sprintf("%s | %s(%d)", e, fn, k))
+		}
+		return qs
+	case "length":
+		return []string{e, e + " | Length"}
+	case "combine":
+		return []string{e + " | Length", "Combine(" + e + ", " + e + ") | Length", e, "Combine(" + e + ", " + e + ")"}
+	case "inline":
+		return []string{e, "V is " + e + "; V", "V is " + e + "; W is V; W"}
+	case "deterministic":
+		return []string{e, e}
+	case "partition": // Param: lhs, constant
+		return []string{e, e + " | Only(" + ps[0] + " = " + ps[1] + ")", e + " | Only(" + ps[0] + " != " + ps[1] + ")"}
+	case "threeway": // Param: lhs, constant
+		return []string{e, e + " | Only(" + ps[0] + " < " + ps[1] + ")", e + " | Only(" + ps[0] + " = " + ps[1] + ")", e + " | Only(" + ps[0] + " > " + ps[1] + ")"}
+	case "operators": // Param: left, right
+		var qs []string
+		for _, op := range c16ops {
+			qs = append(qs, ps[0]+" "+op+" "+ps[1])
+		}
+		return qs
+	case "shadow": // the first definition of a name wins; DocumentN cannot be redefined
+		return []string{e, "X is " + e + "; X is .Families | Length; X", "X is " + e + "; X is 1; Y is X; Y",
+			"Document1 | .Nodes | Length", "Document1 is .Families | First(1); Document1 | .Nodes | Length"}
+	case "inlinepos": // Param: scalar, predicate — a reference after a pipe, in an object field, in Only(…)
+		return []string{
+			e + " | " + ps[0], "S is " + ps[0] + "; " + e + " | S",
+			e + " | {who: " + ps[0] + "}", "S is " + ps[0] + "; " + e + " | {who: S}",
+			e + " | Only(" + ps[1] + ")", "P is " + ps[1] + "; " + e + " | Only(P)",
+			e + " | Length", "Count is Length; " + e + " | Count",
+			e + " | First(2) | {n: " + ps[0] + " | Length, k: Length}", "N is " + ps[0] + " | Length; K is Length; " + e + " | First(2) | {n: N, k: K}"}
+	case "concat": // Param: three First() counts — different arguments that alias the same source
+		a := []string{e + " | First(" + ps[0] + ")", e + " | First(" + ps[1] + ")", e + " | Last(" + ps[2] + ")"}
+		c := "Combine(" + strings.Join(a, ", ") + ")"
+		return []string{a[0], a[1], a[2], c, e, "C is " + c + "; " + e, "C is " + c + "; D is " + c + "; " + e + " | Length", e + " | Length"}
+	}
+	return nil
+}
+
+// verdict: what failed ("" = the law holds or does not apply), observed, expected.
+func (l c16Law) verdict(o []c15Obs) (what, observed, expected string) {
+	min := func(a, b int) int {
+		if a < b {
+			return a
+		}
+		return b
+	}
+	line := func(k int) string { return o[k].line("j") }
+	switch l.Kind {
+	case "first", "last":
+		items, ok := c16items(o[0])
+		if !ok {
+			return // the base is not a (non-nil) list
+		}
+		for k := 0; k <= 8; k++ {
+			got, ok := c16items(o[1+k])
+			want := items[:min(k, len(items))]
+			what = "First(n) is not the prefix of length min(n, len)"
+			if l.Kind == "last" {
+				want = items[len(items)-min(k, len(items)):]
+				what = "Last(n) is not the suffix of length min(n, len)"
+			}
+			if !ok || strings.Join(got, " ") != strings.Join(want, " ") {
+				return fmt.Sprintf("%s (n = %d, len = %d)", what, k, len(items)), o[1+k].Top + " " + o[1+k].JSON, "[ " + strings.Join(want, " ") + " ]"
+			}
+		}
+		return "", "", ""
+	case "length":
+		items, ok := c16items(o[0])
+		if !ok {
+			return
+		}
+		if n, ok := c16int(o[1]); !ok || n != len(items) {
+			return "Length is not the number of elements", o[1].Top + " " + o[1].JSON, "i" + strconv.Itoa(len(items))
+		}
+	case "combine":
+		n, ok := c16int(o[0])
+		items, ok2 := c16items(o[2])
+		if !ok || !ok2 {
+			return
+		}
+		if m, ok := c16int(o[1]); !ok || m != 2*n {
+			return "Combine(E, E) | Length is not twice E | Length", o[1].Top + " " + o[1].JSON, "i" + strconv.Itoa(2*n)
+		}
+		if both, ok := c16items(o[3]); !ok || strings.Join(both, " ") != strings.Join(append(append([]string{}, items...), items...), " ") {
+			return "Combine(E, E) is not E followed by E", o[3].Top + " " + o[3].JSON, "E ++ E"
+		}
+	case "inline":
+		for k := 1; k <= 2; k++ {
+			if line(k) != line(0) {
+				return "a variable is not interchangeable with its definition", line(k), line(0)
+			}
+		}
+	case "deterministic":
+		if line(1) != line(0) {
+			return "the same query on the same document gave two results", line(1), line(0)
+		}
+	case "partition", "threeway":
+		items, ok := c16items(o[0])
+		if !ok {
+			return
+		}
+		var parts [][]string
+		for k := 1; k < len(o); k++ {
+			p, ok := c16items(o[k])
+			if !ok {
+				for j := 1; j < len(o); j++ {
+					if o[j].Top != o[k].Top {
+						return "the complementary Only(…) filters do not fail together", o[j].Top + " / " + o[k].Top, "same outcome"
+					}
+				}
+				return
+			}
+			parts = append(parts, p)
+		}
+		// order-preserving split: every element of E is the next element of exactly one part
+		pos := make([]int, len(parts))
+		total := 0
+		for _, p := range parts {
+			total += len(p)
+		}
+		good := total == len(items)
+		for _, it := range items {
+			if !good {
+				break
+			}
+			found := false
+			for k, p := range parts {
+				if pos[k] < len(p) && p[pos[k]] == it {
+					pos[k]++
+					found = true
+					break
+				}
+			}
+			good = found
+		}
+		if !good {
+			var lens []string
+			for _, p := range parts {
+				lens = append(lens, strconv.Itoa(len(p)))
+			}
+			what = "Only(p) and Only(not p) do not partition the list in order"
+			if l.Kind == "threeway" {
+				what = "Only(x < c), Only(x = c), Only(x > c) do not partition the list in order"
+			}
+			return what, strings.Join(lens, " + ") + " of " + strconv.Itoa(len(items)), "an order-preserving split"
+		}
+	case "operators":
+		var b [6]bool
+		for k := 0; k < 6; k++ {
+			switch o[k].JSON {
+			case "t":
+				b[k] = true
+			case "f":
+			default:
+				return "a comparison of two constants is not a bool", line(k), "t | f"
+			}
+		}
+		eq, ne, gt, ge, lt, le := b[0], b[1], b[2], b[3], b[4], b[5]
+		n := 0
+		for _, x := range []bool{lt, eq, gt} {
+			if x {
+				n++
+			}
+		}
+		obsS := fmt.Sprintf("= %v, != %v, > %v, >= %v, < %v, <= %v", eq, ne, gt, ge, lt, le)
+		if ne == eq {
+			return "!= is not the negation of =", obsS, "!= is not ="
+		}
+		if n != 1 {
+			return "not exactly one of <, =, > holds", obsS, "exactly one"
+		}
+		if ge != (gt || eq) || le != (lt || eq) {
+			return ">= / <= are not > or = / < or =", obsS, "consistent"
+		}
+	case "shadow":
+		for k := 1; k <= 2; k++ {
+			if line(k) != line(0) {
+				return "a later definition of the same name is used instead of the first one", line(k), line(0)
+			}
+		}
+		if line(4) != line(3) {
+			return "a statement named DocumentN replaces the document variable", line(4), line(3)
+		}
+	case "inlinepos":
+		names := []string{"after a pipe", "inside an object field", "inside Only(…)", "as Length after a pipe", "twice inside an object"}
+		for k := 0; k+1 < len(o); k += 2 {
+			if line(k+1) != line(k) {
+				return "a variable referenced " + names[k/2] + " is not interchangeable with its definition", line(k + 1), line(k)
+			}
+		}
+	case "concat":
+		var all []string
+		for k := 0; k < 3; k++ {
+			p, ok := c16items(o[k])
+			if !ok {
+				return
+			}
+			all = append(all, p...)
+		}
+		if got, ok := c16items(o[3]); !ok || strings.Join(got, " ") != strings.Join(all, " ") {
+			return "Combine(A, B, C) is not A followed by B followed by C", o[3].Top + " " + o[3].JSON, "[ " + strings.Join(all, " ") + " ]"
+		}
+		if line(5) != line(4) {
+			return "evaluating a Combine changes what its source evaluates to afterwards", line(5), line(4)
+		}
+		if n, ok := c16int(o[7]); ok {
+			if m, ok2 := c16int(o[6]); !ok2 || m != n {
+				return "evaluating a Combine twice changes the length of its source", line(6), line(7)
+			}
+		}
+	}
+	return "", "", ""
+}
+
+// c16candidates: smaller variants of a query — one statement or one pipeline stage dropped
+// (split only at top level: not inside brackets, braces or strings).
+func c16candidates(q string) []string {
+	split := func(s, sep string) []string {
+		var parts []string
+		depth, inStr, start := 0, false, 0
+		for i := 0; i < len(s); i++ {
+			switch c := s[i]; {
+			case c == '"':
+				inStr = !inStr
+			case inStr:
+			case c == '(' || c == '{':
+				depth++
+			case c == ')' || c == '}':
+				depth--
+			case depth == 0 && strings.HasPrefix(s[i:], sep):
+				parts = append(parts, s[start:i])
+				start = i + len(sep)
+				i += len(sep) - 1
+			}
+		}
+		return append(parts, s[start:])
+	}
+	var out []string
+	stmts := split(q, "; ")
+	if len(stmts) > 1 {
+		for i := range stmts {
+			out = append(out, strings.Join(append(append([]string{}, stmts[:i]...), stmts[i+1:]...), "; "))
+		}
+	}
+	for si, st := range stmts {
+		stages := split(st, " | ")
+		if len(stages) < 2 {
+			continue
+		}
+		for i := range stages {
+			if i == 0 && strings.Contains(stages[0], " is ") {
+				continue
+			}
+			ns := strings.Join(append(append([]string{}, stages[:i]...), stages[i+1:]...), " | ")
+			all := append(append(append([]string{}, stmts[:si]...), ns), stmts[si+1:]...)
+			out = append(out, strings.Join(all, "; "))
+		}
+	}
+	return out
+}
+
+// c16shrink: greedy delta debugging while the law still fails on the implementation (each attempt
+// is evaluated in a child process): first the base expression (drop statements / pipeline
+// stages), then the document (drop root records, then second-level nodes).
+func c16shrink(pool *[]*c15Doc, l c16Law) c16Law {
+	fails := func(x c16Law) bool {
+		var jobs []c15Job
+		for _, q := range x.queries() {
+			jobs = append(jobs, c15Job{q, []int{x.Doc}, "j"})
+		}
+		what, _, _ := x.verdict(c15runJobs(*pool, jobs, 20*time.Second))
+		return what != ""
+	}
+	for round := 0; round < 12 && l.Expr != ""; round++ {
+		progress := false
+		for _, cand := range c16candidates(l.Expr) {
+			x := l
+			x.Expr = cand
+			if cand != "" && fails(x) {
+				l, progress = x, true
+				break
+			}
+		}
+		if !progress {
+			break
+		}
+	}
+	attempts := 0
+	tryDoc := func(f []*TNode) bool {
+		attempts++
+		d, ok := c15mkDoc(f)
+		if !ok {
+			return false
+		}
+		*pool = append(*pool, d)
+		x := l
+		x.Doc = len(*pool) - 1
+		if fails(x) {
+			l = x
+			return true
+		}
+		*pool = (*pool)[:len(*pool)-1]
+		return false
+	}
+	for progress := true; progress && attempts < 60; {
+		progress = false
+		f := (*pool)[l.Doc].Forest
+		for i := range f {
+			if tryDoc(append(append([]*TNode{}, f[:i]...), f[i+1:]...)) {
+				progress = true
+				break
+			}
+		}
+		if progress {
+			continue
+		}
+		for i, root := range f {
+			for k := range root.Kids {
+				nr := &TNode{root.Tag, root.Value, root.Ptr, append(append([]*TNode{}, root.Kids[:k]...), root.Kids[k+1:]...)}
+				nf := append(append(append([]*TNode{}, f[:i]...), nr), f[i+1:]...)
+				if attempts < 60 && tryDoc(nf) {
+					progress = true
+					break
+				}
+			}
+			if progress {
+				break
+			}
+		}
+	}
+	return l
+}
+
+// operands whose upper/lower/fold forms disagree: final sigma, dotted and dotless i, long s, micro
+// sign vs mu, sharp s, Kelvin sign, composed vs combining accents, titlecase digraphs, Ohm sign
+var c16foldWords = []string{"\u039d\u038a\u039a\u039f\u03a3", "\u039d\u03af\u03ba\u03bf\u03c2", "\u03bd\u03af\u03ba\u03bf\u03c2", "\u03bd\u03af\u03ba\u03bf\u03c3",
+	"\u0130smail", "ismail", "\u0131smail", "Ismail", "\u017f", "S", "s", "\u00b5", "\u03bc", "\u039c", "\u00df", "\u1e9e", "SS", "ss",
+	"\u212a", "K", "k", "\u00e9", "e\u0301", "\u00c9", "Stra\u00dfe", "STRASSE", "\u01c5", "\u01c6", "\u01c4", "\u0390", "\u1fd3", "\u03a9", "\u03c9", "\u2126"}
+
+func c16unicodeDocs(r *Rand) [][]*TNode {
+	var docs [][]*TNode
+	for d := 0; d < 3; d++ {
+		var f []*TNode
+		for i := 0; i < 7; i++ {
+			f = append(f, T("INDI", "", fmt.Sprintf("I%d", i+1), T("NAME", r.Pick(c16foldWords)+" /"+r.Pick(c16foldWords)+"/", "")))
+		}
+		docs = append(docs, f)
+	}
+	return docs
+}
+
 // ------------------------------------------------------------ the property run
 
 func init() {
 	runners["C16"] = func(c *Ctx) {
-		c.Rule = "well-typed queries from a typed grammar over the modelled menu (accessor chains on Document/Individual/Family/Name/Sex/Tag, First/Last with 0..8, Length, Only, Combine, NodesWithTagPath, objects, variables incl. shadowing, six operators over numeric/text/mixed operands) × random family-graph documents (0–6 individuals); observation = JSON-normalised result; distinct = (outcome, Go type, query shape)"
+		c.Rule = "well-typed queries from a typed grammar over the modelled menu (accessor chains on Document/Individual/Family/Husband/Wife/Child/Name/Sex/Tag/events/Date/Place, First/Last with 0..8, Length, Only, Combine, NodesWithTagPath, objects, variables incl. shadowing, six operators over numeric/text/mixed operands) × random family-graph documents (0–6 individuals, faulty references, Unicode names); observation = JSON-normalised result; distinct = (outcome, Go type, query shape)"
 		r := c.R
 		pool := c15docPool(c, r.Fork("docs"), c.N(40, 300), 6)
+		uniStart := len(pool)
+		for _, f := range c16unicodeDocs(r.Fork("unicode")) {
+			if d, ok := c15mkDoc(f); ok {
+				pool = append(pool, d)
+			}
+		}
+		uniDocs := len(pool) - uniStart
 		g := &c16Gen{r: r.Fork("grammar")}
 		var jobs []c15Job
-		type check struct {
-			kind string
-			idx  []int
-			arg  int
-			base string
-			doc  int
+		type lawRun struct {
+			law c16Law
+			idx []int
 		}
-		var checks []check
+		var laws []lawRun
 		add := func(q string, doc int) int {
 			jobs = append(jobs, c15Job{q, []int{doc}, "j"})
 			return len(jobs) - 1
 		}
+		addLaw := func(l c16Law) {
+			var idx []int
+			for _, q := range l.queries() {
+				idx = append(idx, add(q, l.Doc))
+			}
+			laws = append(laws, lawRun{l, idx})
+		}
 		// 1. generated programs (correspondence with the model)
-		for i := c.N(40000, 300000); i > 0; i-- {
+		for i := c.N(34000, 300000); i > 0; i-- {
 			add(g.program(4), g.r.Intn(len(pool)))
 			c.Count("source=grammar")
 		}
 		// 2. algebraic laws on the implementation
 		ra := r.Fork("algebra")
 		ga := &c16Gen{r: ra}
-		for i := c.N(2500, 20000); i > 0; i-- {
+		nAlg := c.N(1800, 20000)
+		for i := 0; i < nAlg; i++ {
 			depth := 3
-			if len(checks) < 3000 {
+			if i < 400 {
 				depth = 1 // simple expressions first: the first recorded failing input is a small one
 			}
 			e, t := ga.pipeline(depth)
@@ -385,44 +857,57 @@ func init() {
 				continue
 			}
 			d := ra.Intn(len(pool))
-			base := add(e, d)
-			ln := add(e+" | Length", d)
-			var firsts, lasts []int
-			for k := 0; k <= 8; k++ {
-				firsts = append(firsts, add(fmt.Sprintf("%s | First(%d)", e, k), d))
-				lasts = append(lasts, add(fmt.Sprintf("%s | Last(%d)", e, k), d))
+			for _, k := range []string{"first", "last", "length", "combine", "inline", "deterministic", "shadow"} {
+				addLaw(c16Law{k, e, "", d})
 			}
-			checks = append(checks, check{"first", append([]int{base}, firsts...), 0, e, d})
-			checks = append(checks, check{"last", append([]int{base}, lasts...), 0, e, d})
-			checks = append(checks, check{"length", []int{base, ln}, 0, e, d})
-			checks = append(checks, check{"combine", []int{ln, add("Combine("+e+", "+e+") | Length", d), base, add("Combine("+e+", "+e+")", d)}, 0, e, d})
-			checks = append(checks, check{"inline", []int{base, add("V is "+e+"; V", d), add("V is "+e+"; W is V; W", d)}, 0, e, d})
-			checks = append(checks, check{"deterministic", []int{base, add(e, d)}, 0, e, d})
-			if t != c16Nested && t != c16Map {
+			addLaw(c16Law{"concat", e, strconv.Itoa(ra.Intn(4)) + c16sep + strconv.Itoa(ra.Intn(4)) + c16sep + strconv.Itoa(ra.Intn(4)), d})
+			if t != c16Nested && t != c16Map && t != c16Num {
 				sc := ga.scalar(t)
-				{
-					k := ra.Pick(c16consts)
-					lhs := sc
-					if strings.HasSuffix(sc, "| Length") {
-						lhs = sc + " | Length"
-					}
-					yes := add(e+" | Only("+lhs+" = "+k+")", d)
-					no := add(e+" | Only("+lhs+" != "+k+")", d)
-					checks = append(checks, check{"partition", []int{base, yes, no}, 0, e + " / " + lhs + " = " + k, d})
+				for c16listValued(sc) { // the law is about a condition that is a bool per element
+					sc = ga.scalar(t)
 				}
+				k := ra.Pick(c16consts)
+				lhs := sc
+				if strings.HasSuffix(sc, "| Length") {
+					lhs = sc + " | Length"
+				}
+				addLaw(c16Law{"partition", e, lhs + c16sep + k, d})
+				addLaw(c16Law{"threeway", e, lhs + c16sep + k, d})
+			}
+			{
+				// every statement is also evaluated on the document itself, so the definitions are ones
+				// that a document accepts as well (Length, .String, .Nodes) but that depend on their input
+				sc := ra.Pick([]string{"Length", ".String", ".Nodes | Length", ".String | Length", "First(1) | Length"})
+				pr := ra.Pick([]string{".String = " + ra.Pick(c16consts), ".String < " + ra.Pick(c16consts), "Length = 1", ".Nodes | Length | Length = 1", ".String != \"(no name)\""})
+				addLaw(c16Law{"inlinepos", e, sc + c16sep + pr, d})
 			}
 			c.Count("source=algebra")
 		}
-		// 3. operator laws on constant operands
+		// Combine over sub-slices of the cached lists of the document (aliasing)
+		for i := c.N(300, 3000); i > 0; i-- {
+			e := ra.Pick([]string{".Families", ".Nodes", ".Individuals", ".Individuals | .Name", ".Families | .Husband"})
+			addLaw(c16Law{"concat", e, strconv.Itoa(ra.Intn(3)) + c16sep + strconv.Itoa(ra.Intn(4)) + c16sep + strconv.Itoa(ra.Intn(4)), ra.Intn(len(pool))})
+		}
+		// 3. operator laws on constant operands: ASCII numeric / text / mixed, and case-folding oddities
 		ro := r.Fork("ops")
-		for i := c.N(2000, 20000); i > 0; i-- {
+		for i := c.N(1500, 20000); i > 0; i-- {
 			l, rr := ro.Pick(c16consts), ro.Pick(c16consts)
-			var idx []int
-			for _, op := range c16ops {
-				idx = append(idx, add(l+" "+op+" "+rr, 0))
-			}
-			checks = append(checks, check{"operators", idx, 0, l + " ? " + rr, 0})
+			addLaw(c16Law{"operators", "", l + c16sep + rr, 0})
 			c.Count("source=operators")
+		}
+		for _, a := range c16foldWords {
+			for _, b := range c16foldWords {
+				addLaw(c16Law{"operators", "", `"` + a + `"` + c16sep + `"` + b + `"`, 0})
+				c.Count("source=operators-unicode")
+			}
+		}
+		for d := uniStart; d < uniStart+uniDocs; d++ {
+			for _, w := range c16foldWords {
+				for _, lhs := range []string{".Name | .GivenName", ".Name | .Surname"} {
+					addLaw(c16Law{"threeway", ".Individuals", lhs + c16sep + `"` + w + `"`, d})
+					addLaw(c16Law{"partition", ".Individuals", lhs + c16sep + `"` + w + `"`, d})
+				}
+			}
 		}
 		// 4. reference through the Go API
 		apiStart := len(jobs)
@@ -430,6 +915,7 @@ func init() {
 		for qy := range c16apiRefs {
 			apiQ = append(apiQ, qy)
 		}
+		sort.Strings(apiQ)
 		for d := range pool {
 			for _, qy := range apiQ {
 				add(qy, d)
@@ -437,6 +923,7 @@ func init() {
 			}
 		}
 
+		nPool := len(pool) // the shrinker appends smaller documents later
 		obs := c15runJobs(pool, jobs, 20*time.Second)
 		for i, j := range jobs {
 			o := obs[i]
@@ -447,157 +934,47 @@ func init() {
 				c.Sample(map[string]string{"query": j.Query, "document": pool[j.Docs[0]].Text, "result": o.JSON})
 			}
 			c.Tie(c15req(pool, j), o.line("j"))
+			if o.Top == "value" {
+				for _, w := range c16menuWords {
+					if strings.Contains(j.Query, w+" ") || strings.HasSuffix(j.Query, w) || strings.Contains(j.Query, w+")") || strings.Contains(j.Query, w+",") || strings.Contains(j.Query, w+"}") {
+						c.Count("accessor" + w)
+					}
+				}
+			}
 		}
 		c.Compare = c15compare(c)
-		in := func(ck check) map[string]interface{} {
-			m := map[string]interface{}{"expression": ck.base, "document": pool[ck.doc].Text}
-			var qs []string
-			for _, i := range ck.idx {
-				qs = append(qs, jobs[i].Query)
+		shrunk := map[string]int{}
+		for _, lr := range laws {
+			var o []c15Obs
+			for _, i := range lr.idx {
+				o = append(o, obs[i])
 			}
-			m["queries"] = qs
-			return m
-		}
-		min := func(a, b int) int {
-			if a < b {
-				return a
+			c.Count("law=" + lr.law.Kind)
+			what, observed, expected := lr.law.verdict(o)
+			if what == "" {
+				continue
 			}
-			return b
-		}
-		for _, ck := range checks {
-			o := func(k int) c15Obs { return obs[ck.idx[k]] }
-			switch ck.kind {
-			case "first", "last":
-				items, ok := c16items(o(0))
-				if !ok {
-					continue // the base is not a (non-nil) list: nothing to compare
-				}
-				for k := 0; k <= 8; k++ {
-					got, ok := c16items(o(1 + k))
-					var want []string
-					if ck.kind == "first" {
-						want = items[:min(k, len(items))]
-					} else {
-						want = items[len(items)-min(k, len(items)):]
+			l := lr.law
+			if shrunk[what] < 2 { // delta-debug the first failures of each kind
+				shrunk[what]++
+				if s := c16shrink(&pool, l); s.Expr != l.Expr || s.Doc != l.Doc {
+					var jb []c15Job
+					for _, q := range s.queries() {
+						jb = append(jb, c15Job{q, []int{s.Doc}, "j"})
 					}
-					if !ok || strings.Join(got, " ") != strings.Join(want, " ") {
-						what := "First(n) is not the prefix of length min(n, len)"
-						if ck.kind == "last" {
-							what = "Last(n) is not the suffix of length min(n, len)"
-						}
-						m := in(ck)
-						m["n"] = k
-						m["length"] = len(items)
-						c.Oracle("", what, m, o(1+k).Top+" "+o(1+k).JSON, "[ "+strings.Join(want, " ")+" ]")
-						break
+					if w2, o2, e2 := s.verdict(c15runJobs(pool, jb, 20*time.Second)); w2 != "" {
+						c.Oracle("", w2, map[string]interface{}{"expression": s.Expr, "shrunk_from": l.Expr + " on a document of " + strconv.Itoa(len(pool[l.Doc].Forest)) + " records", "parameter": strings.Split(s.Param, c16sep),
+							"document": pool[s.Doc].Text, "queries": s.queries()}, o2, e2)
+						continue
 					}
 				}
-				c.Count("law=" + ck.kind)
-			case "length":
-				items, ok := c16items(o(0))
-				if !ok {
-					continue
-				}
-				if n, ok := c16int(o(1)); !ok || n != len(items) {
-					c.Oracle("", "Length is not the number of elements", in(ck), o(1).Top+" "+o(1).JSON, "i"+strconv.Itoa(len(items)))
-				}
-				c.Count("law=length")
-			case "combine":
-				n, ok := c16int(o(0))
-				items, ok2 := c16items(o(2))
-				if !ok || !ok2 {
-					continue
-				}
-				if m, ok := c16int(o(1)); !ok || m != 2*n {
-					c.Oracle("", "Combine(E, E) | Length is not twice E | Length", in(ck), o(1).Top+" "+o(1).JSON, "i"+strconv.Itoa(2*n))
-				}
-				if both, ok := c16items(o(3)); !ok || strings.Join(both, " ") != strings.Join(append(append([]string{}, items...), items...), " ") {
-					c.Oracle("", "Combine(E, E) is not E followed by E", in(ck), o(3).Top+" "+o(3).JSON, "E ++ E")
-				}
-				c.Count("law=combine")
-			case "inline":
-				for k := 1; k <= 2; k++ {
-					if o(k).line("j") != o(0).line("j") {
-						c.Oracle("", "a variable is not interchangeable with its definition", in(ck), o(k).line("j"), o(0).line("j"))
-						break
-					}
-				}
-				c.Count("law=inline")
-			case "deterministic":
-				if o(1).line("j") != o(0).line("j") {
-					c.Oracle("", "the same query on the same document gave two results", in(ck), o(1).line("j"), o(0).line("j"))
-				}
-				c.Count("law=deterministic")
-			case "partition":
-				items, ok := c16items(o(0))
-				yes, ok1 := c16items(o(1))
-				no, ok2 := c16items(o(2))
-				if !ok || !ok1 || !ok2 {
-					if ok && (o(1).Top != o(2).Top) {
-						c.Oracle("", "Only(p) and Only(not p) do not fail together", in(ck), o(1).Top+" / "+o(2).Top, "same outcome")
-					}
-					continue
-				}
-				// order-preserving split: merging yes and no in the order of E gives E back
-				a, b := 0, 0
-				good := len(yes)+len(no) == len(items)
-				for _, it := range items {
-					if !good {
-						break
-					}
-					switch {
-					case a < len(yes) && yes[a] == it:
-						a++
-					case b < len(no) && no[b] == it:
-						b++
-					default:
-						good = false
-					}
-				}
-				if !good {
-					c.Oracle("", "Only(p) and Only(not p) do not partition the list in order", in(ck),
-						fmt.Sprintf("%d + %d of %d", len(yes), len(no), len(items)), "an order-preserving split")
-				}
-				c.Count("law=partition")
-			case "operators":
-				var b [6]bool
-				okAll := true
-				for k := 0; k < 6; k++ {
-					switch o(k).JSON {
-					case "t":
-						b[k] = true
-					case "f":
-					default:
-						okAll = false
-					}
-				}
-				if !okAll {
-					c.Oracle("", "a comparison of two constants is not a bool", in(ck), o(0).line("j"), "t | f")
-					continue
-				}
-				eq, ne, gt, ge, lt, le := b[0], b[1], b[2], b[3], b[4], b[5]
-				n := 0
-				for _, x := range []bool{lt, eq, gt} {
-					if x {
-						n++
-					}
-				}
-				obsS := fmt.Sprintf("= %v, != %v, > %v, >= %v, < %v, <= %v", eq, ne, gt, ge, lt, le)
-				if ne == eq {
-					c.Oracle("", "!= is not the negation of =", in(ck), obsS, "!= is not =")
-				}
-				if n != 1 {
-					c.Oracle("", "not exactly one of <, =, > holds", in(ck), obsS, "exactly one")
-				}
-				if ge != (gt || eq) || le != (lt || eq) {
-					c.Oracle("", ">= / <= are not > or = / < or =", in(ck), obsS, "consistent")
-				}
-				c.Count("law=operators")
 			}
+			c.Oracle("", what, map[string]interface{}{"expression": l.Expr, "parameter": strings.Split(l.Param, c16sep),
+				"document": pool[l.Doc].Text, "queries": l.queries()}, observed, expected)
 		}
 		// the Go API reference
 		k := apiStart
-		for d := range pool {
+		for d := 0; d < nPool; d++ {
 			doc, err := gedcom.NewDocumentFromString(pool[d].Text)
 			for _, qy := range apiQ {
 				o := obs[k]
@@ -623,8 +1000,24 @@ func init() {
 				c.Count("law=api-reference")
 			}
 		}
-		c.Notes = append(c.Notes, "numbers in comparisons stay within 15 significant digits and |exponent| ≤ 25 (beyond that float64 rounding decides and the model answers `undetermined`)")
+		c.Notes = append(c.Notes, "numbers in comparisons stay within 15 significant digits and |exponent| ≤ 25 (beyond that float64 rounding decides and the model answers `undetermined`); text comparisons of non-ASCII operands are answered `undetermined` by the model (strings.ToLower beyond ASCII) and are covered by the operator-law oracle on the implementation only")
 	}
+}
+
+// the accessors of the model's menu (for the per-accessor count of evaluated queries)
+var c16menuWords = []string{".Individuals", ".Families", ".Nodes", ".Tag", ".Value", ".Pointer", ".Name", ".Names", ".Sex", ".GivenName", ".Surname", ".String",
+	".Births", ".Deaths", ".Baptisms", ".Burials", ".Birth", ".Death", ".Baptism", ".Burial", ".Spouses", ".Parents", ".IsLiving", ".Husband", ".Wife", ".Children",
+	".Individual", ".Dates", ".Years", ".IsValid", ".Country", ".County", ".State", ".JurisdictionalName"}
+
+// c16listValued: the statement yields a list per element (a comparison on it is mapped, so it is
+// not a bool).
+func c16listValued(sc string) bool {
+	for _, w := range []string{".Spouses | .", ".Families | .", ".Parents | .", ".Children | .Individual", ".Dates | ."} {
+		if strings.Contains(sc, w) {
+			return true
+		}
+	}
+	return false
 }
 
 // c16shape abstracts a query to its constructs (for the distinct-case count).
